@@ -347,6 +347,24 @@ void MEDDLY::pregen_relation::finalize(splittingOption split)
     }
 #endif
     splitMxd(split);
+
+    //
+    // Unions and differences can eliminate the top variable of an
+    // entry, so its top level may now be below the slot it is filed
+    // under.  Saturation fires events[k] at level k, so move such
+    // entries down to the slot of their top level.
+    //
+    for (unsigned k=K; k; k--) {
+      if (0 == events[k].getNode()) continue;
+      const unsigned lvl = unsigned(ABS(events[k].getLevel()));
+      if (lvl == k) continue;
+      if (lvl) {
+        apply(UNION, events[lvl], events[k], events[lvl]);
+      }
+      // (an entry without a top level is the identity: no effect)
+      events[k].set(0);
+    }
+
     if (split != None && split != MonolithicSplit) {
 #ifdef DEBUG_FINALIZE_SPLIT
       // Union the elements, and then re-run.
